@@ -16,10 +16,10 @@ import importlib
 import json
 
 from props._machine import parse_failing, run_mgen
-from vlib.core import BUILD, COQ, known_for
+from vlib.core import GUARD, BUILD, COQ, known_for
 
 
-def classify_rot(chk, tag, script, cfg, what):
+def classify_rot(chk, tag, script, cfg, what, env=None):
     """run a generator that compares C with LLVM and emits 'rotated' machine shards"""
     d = BUILD / "cases" / f"c06_{chk.tier}_{tag}"
     d.mkdir(parents=True, exist_ok=True)
@@ -27,10 +27,18 @@ def classify_rot(chk, tag, script, cfg, what):
         if f.is_file():
             f.unlink()
     cfg = dict(cfg, outdir=str(d))
-    rc, out, err = chk.impl(script, input=json.dumps(cfg), timeout=2400)
+    rc, out, err = chk.impl(script, input=json.dumps(cfg), timeout=2400, env=env)
     if rc != 0:
         if rc < 0 or rc in (134, 137, 139):
-            chk.violation(f"process crashed while running {what} (exit {rc})", {"config": cfg, "stderr_tail": err[-1500:]})
+            last = [l[5:] for l in err.splitlines() if l.startswith("CASE ")]
+            payload = {"config": cfg, "stderr_tail": err[-1500:], "environment": env}
+            if last:
+                try:
+                    payload.update(json.loads(last[-1]))
+                    payload["note"] = "the process died while the LLVM or the C kernel of this case was running"
+                except ValueError:
+                    pass
+            chk.violation(f"process crashed while running {what} (exit {rc})", payload)
         else:
             chk.broken.append({"kind": "harness", "what": f"{script} failed rc={rc}", "stderr": err[-2500:]})
         return None, d
@@ -82,6 +90,19 @@ def run(chk):
             chk.case(("ckern", chk.seed, i))
         for e in index["errors"]:
             chk.violation("the C back end failed where the LLVM back end produced a result", e)
+        handle_rot(chk, index, d, known, "kernel")
+
+    # (b') the same comparison with initial capacity 1 (hook): the growth paths (capacity tests, doubling, reallocation)
+    # of both back ends are executed, not only printed
+    index, d = classify_rot(chk, "ckern_cap1", "c06_kernels.py",
+                            {"seed": chk.seed * 43 + 5, "prefix": "k1", "max_problems": 14 if quick else 80, "n_inputs": 2, "fmt_cap": 2 if quick else 4},
+                            "the C back end with initial capacity 1", env={GUARD: "1"})
+    if index is not None:
+        chk.count("c_vs_llvm_kernel_runs_capacity1", index["compared"])
+        for i in range(index["compared"]):
+            chk.case(("ckern_cap1", chk.seed, i))
+        for e in index["errors"]:
+            chk.violation("the C back end failed where the LLVM back end produced a result (initial capacity 1)", dict(e, capacity="1"))
         handle_rot(chk, index, d, known, "kernel")
 
     # (c) expression stream
